@@ -264,6 +264,13 @@ func (sdb *DbSqlite) verifyNodeHashes(fix bool) error {
 	// while reading child nodes. This may be expensive for a large DB, so
 	// we may want to eventually break this down into transactions for each node
 	// and its children.
+	if fix {
+		// a repair writes: it must not interleave with a write transaction,
+		// or that transaction (or this one) fails with SQLITE_BUSY
+		sdb.writeLock.Lock()
+		defer sdb.writeLock.Unlock()
+	}
+
 	tx, err := sdb.db.Begin()
 	if err != nil {
 		return err
